@@ -82,3 +82,6 @@ FUNCTIONS = [
     ('InnerPin', '__init__', 'method', []),
     ('OuterPin', '__init__', 'method', [('instance', 'any!OuterPin'), ('inner_pin', 'any!OuterPin')]),
 ]
+
+# functions whose contract talks about list positions (the positional list axioms are added only for them)
+POSITIONAL = {('Instance', 'reference', 'setter')}
